@@ -367,6 +367,107 @@ static void handler(vh::Reader& r, vh::Out& o)
 			o.f(*std::max_element(trace.begin(), trace.end()));
 		}
 	}
+	else if(op == "diag")
+	{
+		// Integrate with everything it writes: value, non-convergence warning, count, swap notice (stderr), nan notice, inf notice
+		double a = r.num(), b = r.num(), eps = r.num();
+		int depth = (int) r.integer();
+		skip_family(r);
+		auto f = vh::fun1(vh::parse_fexpr(r));
+		long n = 0;
+		auto g = [&](double x) {
+			n++;
+			return f(x);
+		};
+		diag_reset();
+		double v = Integrate(g, a, b, eps, depth);
+		o.f(v);
+		o.i(diag_has("did not converge") ? 1 : 0);
+		o.i(n);
+		o.i(diag_has("Sign will get swapped") ? 1 : 0);
+		o.i(diag_has("Result is nan") ? 1 : 0);
+		o.i(diag_has("Result is inf") ? 1 : 0);
+	}
+	else if(op == "named")
+	{
+		// the string overload with an arbitrary method name: unrecognised names end the process (the runner reports EXIT);
+		// the recognised methods other than "Adaptive-Simpson" are not part of this property: called for equal limits only
+		std::string name = r.word();
+		double a = r.num(), b = r.num();
+		skip_family(r);
+		auto f = vh::fun1(vh::parse_fexpr(r));
+		long n = 0;
+		auto g = [&](double x) {
+			n++;
+			return f(x);
+		};
+		bool other = name == "Trapezoidal" || name == "Gauss-Legendre" || name == "Gauss-Kronrod" || name == "Tanh-Sinh" || name == "Gauss-Legendre_2";
+		if(other && a != b)
+		{
+			o.w("SKIP");
+			return;
+		}
+		diag_reset();
+		double v = Integrate(g, a, b, name);
+		o.f(v);
+		o.i(diag_has("did not converge") ? 1 : 0);
+		o.i(n);
+	}
+	else if(op == "i2d" || op == "i3d")
+	{
+		bool three = op == "i3d";
+		double x1 = r.num(), x2 = r.num(), y1 = r.num(), y2 = r.num(), z1 = 0, z2 = 0;
+		if(three)
+		{
+			z1 = r.num();
+			z2 = r.num();
+		}
+		skip_family(r);
+		auto g = vh::parse_fexpr(r);
+		const vh::FExpr* gp = g.get();
+		long n = 0;
+		const long budget = 40000000;
+		double xmn = INFINITY, xmx = -INFINITY, ymn = INFINITY, ymx = -INFINITY;
+		diag_reset();
+		double v;
+		try
+		{
+			if(three)
+				v = Integrate_3D([&](double x, double y, double z) {
+					if(++n > budget)
+						throw Abandon();
+					double w[3] = {x, y, z};
+					return vh::eval_fexpr(*gp, w);
+				},
+								 x1, x2, y1, y2, z1, z2, "Adaptive-Simpson");
+			else
+				v = Integrate_2D([&](double x, double y) {
+					if(++n > budget)
+						throw Abandon();
+					xmn = std::min(xmn, x);
+					xmx = std::max(xmx, x);
+					ymn = std::min(ymn, y);
+					ymx = std::max(ymx, y);
+					double w[3] = {x, y, 0};
+					return vh::eval_fexpr(*gp, w);
+				},
+								 x1, x2, y1, y2, "Adaptive-Simpson");
+		}
+		catch(const Abandon&)
+		{
+			v = std::nan("");
+		}
+		o.f(v);
+		o.i(diag_has("did not converge") ? 1 : 0);
+		o.i(n);
+		if(!three)
+		{
+			o.f(xmn);
+			o.f(xmx);
+			o.f(ymn);
+			o.f(ymx);
+		}
+	}
 	else
 		o.w("HARNESSERR unknown_op");
 }
